@@ -1,7 +1,7 @@
 SPECIFICATION Spec
 CONSTANTS
   Classes = {"string", "hostport", "stringlist", "stringmap", "int", "duration", "memsize", "bool"}
-  Uniform = FALSE
+  Uniform = TRUE
   Faithful = FALSE
 INVARIANTS TypeOK LosersDoNotShow WinnerShows DefaultWhenUndefined SetVarsExpanded UnsetLeftAlone OtherKindsVerbatim ValidatedIsApplied DeviationsDiffer MapMergePerKey
 PROPERTY InputsUntouched
